@@ -313,18 +313,18 @@ func (w *World) newInterp(cfg *Config, sol *Solver, prefix []Decision) *Interp {
 	sol.storeUses++
 	sol.store.NewEpoch()
 	in := &Interp{
-		prog:     w.Prog,
-		st:       sol.store,
-		sol:      sol,
-		ps:       &pathState{prefix: prefix},
-		cfg:      cfg,
-		globals:  map[*ssa.Global]*Cell{},
-		out:      &Outcome{Asserts: map[string]int{}, Stubs: map[string]int{}, Funcs: map[string]int{}, Bounds: map[string]string{}},
-		varCount: map[string]int{},
-		sentinel: map[string]Value{},
-		concrete: map[string]uint64{},
-		ext:      map[string]interface{}{},
-		world:    w,
+		prog:       w.Prog,
+		st:         sol.store,
+		sol:        sol,
+		ps:         &pathState{prefix: prefix},
+		cfg:        cfg,
+		globals:    map[*ssa.Global]*Cell{},
+		out:        &Outcome{Asserts: map[string]int{}, Stubs: map[string]int{}, Funcs: map[string]int{}, Bounds: map[string]string{}},
+		varCount:   map[string]int{},
+		sentinel:   map[string]Value{},
+		concrete:   map[string]uint64{},
+		ext:        map[string]interface{}{},
+		world:      w,
 		constCache: map[*ssa.Const]Value{},
 		strCache:   map[string]StrV{},
 		bounds:     map[*Term]*ival{},
